@@ -6,6 +6,7 @@ package main
 // A process-killing fault (un-recovered goroutine) kills THIS process; the parent sees EOF + the panic on stderr.
 
 import (
+	"strconv"
 	"bufio"
 	"bytes"
 	"context"
@@ -129,6 +130,51 @@ func c12Census() map[string]string {
 	return res
 }
 
+// c12Slow stretches every wall-clock allowance of the child (C12_SLOW, set by the parent for confirmation runs)
+var c12Slow = time.Duration(1)
+
+var goroutineState = regexp.MustCompile(`^goroutine \d+ \[([^\],]*)`)
+
+// c12PendingStates: the goroutines with a qryn frame that were not there `before`, and whether EVERY one of them is parked
+// in a wait that only another goroutine can end (channel operation, select, lock, condition). A goroutine that is
+// runnable, running, in a syscall or sleeping can still make progress by itself: on a busy machine "still there after
+// 500 ms" must not be read as "blocked".
+func c12PendingStates(before map[string]string) (n int, allParked bool) {
+	buf := make([]byte, 1<<20)
+	for {
+		k := runtime.Stack(buf, true)
+		if k < len(buf) {
+			buf = buf[:k]
+			break
+		}
+		buf = make([]byte, 2*len(buf))
+	}
+	allParked = true
+	for _, g := range strings.Split(string(buf), "\n\n") {
+		if !strings.Contains(g, "github.com/metrico/qryn/") || strings.Contains(g, "dbVersion.throttle") || strings.Contains(g, "verif/harness/cmd/vcheck.c12PendingStates") {
+			continue
+		}
+		m := goroutineHdr.FindStringSubmatch(g)
+		if m == nil {
+			continue
+		}
+		if _, ok := before[m[1]]; ok {
+			continue
+		}
+		n++
+		st := ""
+		if sm := goroutineState.FindStringSubmatch(g); sm != nil {
+			st = sm[1]
+		}
+		switch {
+		case strings.HasPrefix(st, "chan "), strings.HasPrefix(st, "select"), strings.HasPrefix(st, "semacquire"), strings.HasPrefix(st, "sync."):
+		default:
+			allParked = false
+		}
+	}
+	return n, allParked
+}
+
 type progressReader struct {
 	r io.Reader
 	n *int64
@@ -184,6 +230,11 @@ func c12ChildMain(r *h.Result, rng *h.Rng, tier, replay string) error {
 		deadline: 2500 * time.Millisecond, settle: 1500 * time.Millisecond}
 	if tier == "thorough" {
 		c.deadline = 4 * time.Second
+	}
+	if f, _ := strconv.Atoi(os.Getenv("C12_SLOW")); f > 1 { // confirmation run: see c12ConfirmSlow
+		c.deadline *= time.Duration(f)
+		c.settle *= time.Duration(f)
+		c12Slow = time.Duration(f)
 	}
 	c.db, c.dbCl = fakes.NewReaderDB(), fakes.NewReaderDB()
 	mk := func(db *fakes.ReaderDB, cluster bool) *httptest.Server {
